@@ -180,6 +180,20 @@ class Session:
                         line, self._obsbuf = self._obsbuf.split(b"\n", 1)
                         self.obs.append(line.decode())
 
+    def _drain_obs_for(self, seconds):
+        t0 = time.time()
+        while time.time() - t0 < seconds:
+            r, _, _ = select.select([self.obs_r], [], [], 0.01)
+            if r:
+                try:
+                    d = os.read(self.obs_r, 65536)
+                except OSError:
+                    d = b""
+                self._obsbuf += d
+                while b"\n" in self._obsbuf:
+                    line, self._obsbuf = self._obsbuf.split(b"\n", 1)
+                    self.obs.append(line.decode())
+
     def _exited(self):
         if not self.alive:
             return True
@@ -236,9 +250,17 @@ class Session:
                 return "timeout"
             time.sleep(0.0004)
 
-    def send(self, data):
+    def send(self, data, stall=None):
         os.write(self.master, bytes(data))
         self.sent += len(data)
+        if stall:
+            # the terminal's output is NOT read for a while (a stalled pty / ssh reader): the child blocks in the write of
+            # its repaint, and window resizes (SIGWINCH, handled without SA_RESTART) interrupt that write
+            # (the observation pipe IS read meanwhile: the child must block on the terminal, not on its log)
+            self._drain_obs_for(0.15)
+            for cols in stall:
+                fcntl.ioctl(self.master, termios.TIOCSWINSZ, struct.pack("HHHH", 24, cols, 0, 0))
+                self._drain_obs_for(0.06)
         st = self.wait_quiet()
         n = 0
         while st == "stopped" and n < 50:     # the child stopped itself (between reads with `pause 1`): resume it
@@ -395,7 +417,7 @@ def _run_case(s, chunks, rows, probe, events, between_reads, sync_keys):
     for k, ch in enumerate(chunks):
         if not s.alive:
             break
-        statuses.append(s.send(ch))
+        statuses.append(s.send(ch, stall=(events or {}).get("stall:%d" % k)))
         if sync_keys:
             t0 = time.time()
             while time.time() - t0 < s.timeout:
